@@ -14,8 +14,16 @@ Definition nan : Z := 7.
 Definition a_eq (a b : Z) : bool := (atom_v a =? atom_v b) && negb (atom_v a =? nan).
 Definition ordv (c : comparison) : value := VOrd c.
 
+(** the function a user path names: its last `m_...` segment (`m_eq`, `self::m_eq`, `crate::support::m_eq`,
+    `crate::support::g::m_eq::<0, _>` all name support.rs's `m_eq`) *)
+Definition method_name (path : toks) : list string :=
+  match rev (filter (fun s => String.prefix "m_" s) (flat path)) with
+  | m :: _ => [m]
+  | [] => flat path
+  end.
+
 Definition user0 (path : toks) (args : list value) : value :=
-  match flat path, args with
+  match method_name path, args with
   | [m], [VAtom a; VAtom b] =>
       if String.eqb m "m_eq" then VBool (atom_v a <=? atom_v b)
       else if String.eqb m "m_cmp" then VOrd (Z.compare (atom_v b) (atom_v a))
@@ -97,7 +105,7 @@ From Educe.Proofs Require Import P_C07 P_C07c.
 
 Open Scope Z_scope.
 Definition user1 (path : toks) (args : list value) : value :=
-  match flat path, args with
+  match method_name path, args with
   | [m], [VAtom z] => if String.eqb m "m_clone" then VAtom (z + 50) else user0 path args
   | _, _ => user0 path args
   end.
@@ -210,7 +218,7 @@ Definition model_deref_mut_write (d : dinput) (x : value) (h : store) : option s
     reflexive impl); `m_into` is `B(v + 200 + 1000 K)`, `m_same` is `A(v + 60)` in u8.  Printed like `sv`. *)
 Open Scope Z_scope.
 Definition user2 (path : toks) (args : list value) : value :=
-  match flat path, args with
+  match method_name path, args with
   | [m], [VAtom z] =>
       if String.eqb m "m_into" then VAtom (atom_v z + 200 + 1000 * atom_k z)
       else if String.eqb m "m_same" then VAtom (1000 * atom_k z + (atom_v z + 60) mod 256)
